@@ -17,9 +17,10 @@ demoWith=none; demoWithout=none
 if [ -n "$demo" ]; then
   case $demo in
     *_test.go) cp $demo $wt/zz_seed_demo_test.go
-       GOFLAGS=-mod=mod timeout 900 go test -vet=off -count=1 -timeout 14m . >/tmp/sv-$p-$k.demo1 2>&1 && demoWith=PASS || demoWith=FAIL
+       pat=$(grep -o '^func Test[A-Za-z0-9_]*' $demo | sed 's/func //' | paste -sd'|')
+       GOFLAGS=-mod=mod timeout 900 go test -vet=off -count=1 -timeout 14m -run "^($pat)\$" . >/tmp/sv-$p-$k.demo1 2>&1 && demoWith=PASS || demoWith=FAIL
        git -C $wt apply -R $d/m$k.diff
-       GOFLAGS=-mod=mod timeout 900 go test -vet=off -count=1 -timeout 14m . >/tmp/sv-$p-$k.demo0 2>&1 && demoWithout=PASS || demoWithout=FAIL
+       GOFLAGS=-mod=mod timeout 900 go test -vet=off -count=1 -timeout 14m -run "^($pat)\$" . >/tmp/sv-$p-$k.demo0 2>&1 && demoWithout=PASS || demoWithout=FAIL
        rm -f $wt/zz_seed_demo_test.go
        git -C $wt apply $d/m$k.diff ;;
     *) demoWith=manual; demoWithout=manual ;;
@@ -28,7 +29,7 @@ fi
 echo "SEED $p m$k: suite=$suite demo_with_change=$demoWith demo_without=$demoWithout"
 cd /verif
 for c in ${checks//,/ }; do
-  out=$(VERIF_REPO=$wt VERIF_EVIDENCE_DIR=/tmp/sv-ev-$p-$k VERIF_REPLAY_DIR=/tmp/sv-rp-$p-$k bin/vcheck run $c --tier $tier 2>&1); rc=$?
+  out=$(VCHECK_STALL_S=90 VERIF_REPO=$wt VERIF_EVIDENCE_DIR=/tmp/sv-ev-$p-$k VERIF_REPLAY_DIR=/tmp/sv-rp-$p-$k bin/vcheck run $c --tier $tier 2>&1); rc=$?
   fps=$(echo "$out" | grep -o 'fingerprint=.*occurrences' | sed 's/ occurrences//' | sort -u | head -4 | tr '\n' ' ')
   echo "SEED $p m$k check=$c tier=$tier exit=$rc $fps :: $(echo "$out" | grep '^property=' | tail -1 | cut -d' ' -f4-9)"
 done
